@@ -232,7 +232,7 @@ func c11ReloadWindow(r *hx.Run, rnd *rand.Rand) {
 			Servers:   []config.ServerConfig{{Addr: addr, Locations: []string{"l"}, Cache: cacheName}},
 		}
 	}
-	for round, sizes := range [][2]int{{40, 20}, {9, 3}, {300, 64}} {
+	for round, sizes := range [][2]int{{40, 20}, {40, 20}, {9, 3}, {9, 3}, {300, 64}} {
 		a, b := fmt.Sprintf("c11wa%d_%d", r.Seed, round), fmt.Sprintf("c11wb%d_%d", r.Seed, round)
 		w := newWorldCfg(r, 1, true, func(o []string) *config.PikeConfig { origin = o[0]; return mk(a, sizes[0]) })
 		w.Farm.SetScript(func(f *hx.Fetch) *hx.Reply {
@@ -244,10 +244,12 @@ func c11ReloadWindow(r *hx.Run, rnd *rand.Rand) {
 			return w.Cl.Do(hx.Req{Addr: addr, Host: "c11w.example", URI: fmt.Sprintf("/c11w/%d/%d", round, n), Timeout: 10 * time.Second})
 		}
 		// a reload with requests inside the window between the cache step and the server step
+		// every second round: no request at all reaches the server while it names the other cache
+		quiet := round%2 == 1
 		reload := func(cfg *config.PikeConfig) {
 			compress.Reset(cfg.Compresses)
 			cache.ResetDispatchers(cfg.Caches)
-			for i := 0; i < 5; i++ {
+			for i := 0; i < 5 && !quiet; i++ {
 				res := get()
 				r.Add("requests_inside_reload_window", 1)
 				r.Add(fmt.Sprintf("requests_inside_reload_window_status_%d", res.Status), 1)
@@ -262,11 +264,15 @@ func c11ReloadWindow(r *hx.Run, rnd *rand.Rand) {
 			get()
 		}
 		reload(mk(b, sizes[0])) // the cache is renamed: a is removed while the server still names it
-		for i := 0; i < 10; i++ {
+		for i := 0; i < 10 && !quiet; i++ {
 			get()
 		}
 		reload(mk(a, sizes[1])) // the old name again, smaller
 		bound := sizes[0]
+		if quiet {
+			// the cache named a was removed and created anew with the smaller size; nothing can justify more
+			bound = sizes[1]
+		}
 		max, ok := 0, true
 		for i := 0; i < 6*bound+200; i++ {
 			if res := get(); res.Err != nil || res.Status != 200 {
@@ -278,6 +284,20 @@ func c11ReloadWindow(r *hx.Run, rnd *rand.Rand) {
 				if t := d.VerifStats().Total; t > max {
 					max = t
 				}
+			}
+		}
+		// as the clients see it: of the keys just requested, asked again newest first, at most `bound`
+		// can still be answered from memory (whichever dispatcher object the server really uses)
+		if ok {
+			last := n
+			stillHit := 0
+			for k := last; k > last-(3*bound+50) && k > 0; k-- {
+				if res := w.Cl.Do(hx.Req{Addr: addr, Host: "c11w.example", URI: fmt.Sprintf("/c11w/%d/%d", round, k), Timeout: 10 * time.Second}); res.Label == "hit" {
+					stillHit++
+				}
+			}
+			if stillHit > max {
+				max = stillHit
 			}
 		}
 		r.Eval(1)
